@@ -433,39 +433,23 @@ def expected(case, extra):
     return None, info
 
 
-def actual_algorithm(case, extra, info):
-    """the outcome the *recorded defects* produce (string concatenation of the virtual root, slice bound
-    vroot_idx+i+1) — used only to keep the known-finding classifier narrow"""
-    path, sub0, err = request_path(case, extra)
-    v = info.get('vroot_text')
-    vt = info['vt']
-    segs = spec_split((v or '') + path)
-    out, k = spec_walk(case['tree'], [], segs, sub0)
-    if k < len(segs):
-        out['traversed'] = segs[:k + len(vt)]
-    out['virtual_root'] = segs[:len(vt)] if (vt and k >= len(vt)) else []
-    out['virtual_root_path'] = vt
-    return out
-
-
 def classify(case, extra, got, exp, info):
-    """finding id for a violating case, or None.  Each class is a decidable predicate of the case."""
+    """finding id for a violating case, or None.  One class is left (F-C02b / F-C02c were repaired in 939e5de and are
+    no longer tolerated anywhere): F-C02a = a virtual-root header that normalises to at least one segment AND the
+    walk stops before the combined path is exhausted.  Then — and only then — 'traversed' is allowed to be the
+    consumed segments plus the next len(virtual_root_path) segments (vpath_tuple[: vroot_idx + i + 1]); every other
+    field must be what the property demands, and any other value of 'traversed' is an unknown violation."""
     if case['mode'] not in ('router', 'route', 'direct') or 'ok' not in got or 'ok' not in exp:
         return None
-    v = info.get('vroot_text')
-    if v is None or 'vt' not in info:
+    if info.get('vroot_text') is None or 'vt' not in info:
         return None
-    vt, pt, path = info['vt'], info['pt'], info['path_text']
-    if got['ok'] != actual_algorithm(case, extra, info):
+    vt, pt, k = info['vt'], info['pt'], info['k']
+    segs = vt + pt
+    if not (vt and k < len(segs)):
         return None
-    glued = not (v == '' or v.endswith('/') or path.startswith('/'))
-    if glued and spec_split(v + path) != vt + pt:
-        return 'F-C02c'          # virtual root and a path without leading slash are concatenated as strings
-    if spec_split(v + path) != vt + pt:
-        return 'F-C02b'          # '..' of the request path climbs into the virtual-root prefix
     diff = [f for f in FIELDS if got['ok'][f] != exp['ok'][f]]
-    if diff == ['traversed'] and vt and info['k'] < len(vt + pt):
-        return 'F-C02a'          # early stop under a non-empty virtual root: traversed has len(vroot) extra segments
+    if diff == ['traversed'] and got['ok']['traversed'] == segs[:k + len(vt)]:
+        return 'F-C02a'
     return None
 
 
@@ -818,13 +802,20 @@ def clear_caches():
 
 
 WITNESSES = [
-    # F-C02a — the repository's own test_withroute_and_traverse_and_vroot in miniature
-    {'mode': 'direct', 'tree': {'g': True, 'k': [['abc', {'g': True, 'k': []}]]}, 'path': '/foo/bar', 'vroot': '/abc', 'md': None},
-    # F-C02b — '..' climbs out of the virtual root
-    {'mode': 'direct', 'tree': {'g': True, 'k': [['a', {'g': True, 'k': [['b', {'g': True, 'k': []}], ['c', {'g': True, 'k': []}]]}]]},
-     'path': '/../c', 'vroot': '/a/b', 'md': None},
-    # F-C02c — {traverse} placeholder (no leading slash) glued to the virtual root
-    {'mode': 'route', 'tree': {'g': True, 'k': [['a', {'g': True, 'k': [['x', {'g': True, 'k': []}]]}]]}, 'path': '/_w/x', 'vroot': '/a'},
+    # F-C02a (known) — the repository's own test_withroute_and_traverse_and_vroot in miniature
+    ({'mode': 'direct', 'tree': {'g': True, 'k': [['abc', {'g': True, 'k': []}]]}, 'path': '/foo/bar', 'vroot': '/abc', 'md': None},
+     'F-C02a'),
+    # former F-C02b (repaired in 939e5de) — '..' climbed out of the virtual root: context / virtual_root were /a/c.
+    # Now the walk stays below /a/b and stops at 'c' — an early stop under a virtual root, i.e. an F-C02a case
+    ({'mode': 'direct', 'tree': {'g': True, 'k': [['a', {'g': True, 'k': [['b', {'g': True, 'k': []}], ['c', {'g': True, 'k': []}]]}]]},
+      'path': '/../c', 'vroot': '/a/b', 'md': None}, 'F-C02a'),
+    # the same with a 'c' below /a/b too: the context must be /a/b/c (not the sibling /a/c), path exhausted, no finding
+    ({'mode': 'direct', 'tree': {'g': True, 'k': [['a', {'g': True, 'k': [['b', {'g': True, 'k': [['c', {'g': True, 'k': []}]]}],
+                                                                         ['c', {'g': True, 'k': []}]]}]]},
+      'path': '/../c', 'vroot': '/a/b', 'md': None}, None),
+    # former F-C02c (repaired in 939e5de) — {traverse} placeholder (no leading slash) was glued to the virtual root
+    ({'mode': 'route', 'tree': {'g': True, 'k': [['a', {'g': True, 'k': [['x', {'g': True, 'k': []}]]}]]}, 'path': '/_w/x', 'vroot': '/a'},
+     None),
 ]
 
 
@@ -934,15 +925,20 @@ def run(ctx):
             viol.append(v)
     dist['exhaustive_scope'] = {'cases': len(ex), 'known_finding_cases': ex_known,
                                 'what': 'all trees of depth <= 2 over names {a,b} (36) x all paths of <= %d segments over '
-                                        '{a,b,.,..,@@a,""} x vroot in {none,/,/a,/a/b,/zz,/a/}' % (3 if ctx.tier == 'quick' else 4)}
-    # --- witnesses of the recorded findings, replayed on the real code ---------------------------------------
+                                        '{a,b,.,..,@@a,""} x vroot in {none,/,/a,/a/b,/zz,/a/}; plus the same segment sequences '
+                                        'without leading slash as a match-dictionary traverse string x vroot in {/a,/a/b}'
+                                        % (3 if ctx.tier == 'quick' else 4)}
+    # --- witnesses of the recorded finding and of the repaired ones, replayed on the real code ---------------------
     notes = []
-    for w in WITNESSES:
+    for w, want in WITNESSES:
         got, extra, m, v, info = check_case(w)
+        has = (v or {}).get('finding') if v else None
         notes.append('witness %s: impl=%s -> %s' % (json.dumps(w, ensure_ascii=True)[:160], json.dumps(got, ensure_ascii=True)[:200],
-                                                    (v or {}).get('finding', 'no violation')))
+                                                    has or ('VIOLATION' if v else 'as the property demands')))
         if v:
             viol.append(v)
+        elif want is not None:
+            notes.append('recorded finding %s is no longer reproduced by its witness (repaired? update known/C02.json)' % want)
     viol = shrink_all(viol)
     dist['known_finding_cases'] = {}
     for v in viol:
@@ -998,32 +994,41 @@ def small_trees():
             yield {'g': True, 'k': [[n, t] for n, t in (('a', ta), ('b', tb)) if t is not None]}
 
 
+ALPHABET = ['a', 'b', '.', '..', '@@a', '']
+VROOTS = (None, '/', '/a', '/a/b', '/zz', '/a/')
+
+
 def exhaustive_cases(maxlen):
-    alphabet = ['a', 'b', '.', '..', '@@a', '']
-    paths = ['/'] + ['/' + '/'.join(p) for L in range(1, maxlen + 1) for p in itertools.product(alphabet, repeat=L)]
-    return [{'mode': 'direct', 'tree': tree, 'path': p, 'vroot': vroot, 'md': None}
-            for tree in small_trees() for vroot in (None, '/', '/a', '/a/b', '/zz', '/a/') for p in paths]
+    """PATH_INFO cases (leading slash) for every virtual root, and — for the virtual roots that are not empty — the
+    same segment sequences WITHOUT a leading slash as the `traverse` string of a match dictionary (what a
+    {traverse} placeholder delivers)"""
+    seqs = [p for L in range(1, maxlen + 1) for p in itertools.product(ALPHABET, repeat=L)]
+    paths = ['/'] + ['/' + '/'.join(p) for p in seqs]
+    out = [{'mode': 'direct', 'tree': tree, 'path': p, 'vroot': vroot, 'md': None}
+           for tree in small_trees() for vroot in VROOTS for p in paths]
+    bare = sorted({'/'.join(p) for p in seqs if p[0] != ''} - {''})
+    out += [{'mode': 'direct', 'tree': tree, 'path': '/', 'vroot': vroot, 'md': {'traverse': t}}
+            for tree in small_trees() for vroot in ('/a', '/a/b') for t in bare]
+    return out
 
 
 def search(ctx):
     """small-scope exhaustive search for an input on which the implementation violates the property:
     all trees of depth <= 2 over {a,b} x all paths of <= 4 segments over {a,b,.,..,@@a,''} x
-    vroot in {none,'/','/a','/a/b','/zz','/a/'} through the traverser, then the seeded stream."""
+    vroot in {none,'/','/a','/a/b','/zz','/a/'} through the traverser (plus the slash-less traverse strings under
+    /a and /a/b), then the seeded stream."""
     viol, n = [], 0
-    alphabet = ['a', 'b', '.', '..', '@@a', '']
-    paths = ['/'] + ['/' + '/'.join(p) for L in range(1, 5) for p in itertools.product(alphabet, repeat=L)]
+    paths = ['/'] + ['/' + '/'.join(p) for L in range(1, 5) for p in itertools.product(ALPHABET, repeat=L)]
     exhaustive = True
-    for tree in small_trees():
-        for vroot in (None, '/', '/a', '/a/b', '/zz', '/a/'):
-            for p in paths:
-                case = {'mode': 'direct', 'tree': tree, 'path': p, 'vroot': vroot, 'md': None}
-                n += 1
-                _, _, _, v, _ = check_case(case)
-                if v and not v.get('finding'):
-                    viol.append(v)
-                    if len(viol) >= 3:
-                        return {'violations': shrink_all(viol), 'searched': n, 'exhaustive': False}
-        if ctx.time_left() < 60:
+    todo = exhaustive_cases(4)
+    for j, case in enumerate(todo):
+        n += 1
+        _, _, _, v, _ = check_case(case)
+        if v and not v.get('finding'):
+            viol.append(v)
+            if len(viol) >= 3:
+                return {'violations': shrink_all(viol), 'searched': n, 'exhaustive': False}
+        if j % 5000 == 0 and ctx.time_left() < 60:
             exhaustive = False
             break
     for p in paths:
